@@ -20,7 +20,7 @@ RULE = ("plan = (dt) a datetime vector of unit D/s/ms/us, years 1..9999, NaT any
         "/ re applied element by element; missing in -> missing out; raising iff Python raises; Vector .dt/.re/.str proxies and "
         "scalar arguments agree with the module functions. Non-trivial: a vector with both a missing value and ≥ 2 values, or a "
         "calendar edge (ISO week 53/1, Feb 29, pre-1970, year boundary), or an empty-matching pattern. Distinct = plan hash.")
-CASES = {"quick": 2000, "thorough": 10000}
+CASES = {"quick": 2000, "thorough": 20000}
 FUZZ_RUNS = {"thorough": 20000}     # coverage-guided leg, 8 processes (vlib/fuzz.py)
 
 EXTRACTORS = ["year", "month", "day", "weekday", "isoweekday", "isoweek", "quarter"]
